@@ -149,6 +149,9 @@ static qtreetbl_obj_t *ct_result(qtreetbl_t *tbl, qtreetbl_obj_t *c, int lo, int
     if (ok && !hasK) tbl->num++;
     if (!ok) errno = ENOMEM;
     *pok = ok;
+    /* the argument subtree is CONSUMED: the real function restructures and recolours its nodes in place (also when it
+     * fails), so nothing may be concluded from the old root pointer any more - it becomes an invalid summary with poison links */
+    c->name = NULL; c->namesize = NS; c->red = nondet_bool(); c->left = POISON; c->right = POISON;
     return r;
 }
 
@@ -296,13 +299,13 @@ void h_win_putobj_top(void) {
     QV_ASSERT(res == gh_top_ok, "C01,C15: putobj returns true exactly when put_obj stored the key");
     QV_ASSERT(res || errno == ENOMEM, "C15: failure is reported as ENOMEM");
     if (t->root != NULL) {
-        QV_ASSERT(!t->root->red, "C02: the root is black after every put");
+        QV_ASSERT(!t->root->red, "C02,C15: the root is black after every put");
         int bh2 = W_valid(t->root, -1, 256, false, 3);
-        QV_ASSERT(bh2 >= 0, "C02: the tree is a valid LLRB tree after every put, failed ones included");
+        QV_ASSERT(bh2 >= 0, "C02,C15: the tree is a valid LLRB tree after every put, failed ones included");
     }
-    QV_ASSERT(W_has(t->root, true, 3) == (hasP || (res && gh_P == gh_K)), "C01: every other key is untouched by put");
+    QV_ASSERT(W_has(t->root, true, 3) == (hasP || (res && gh_P == gh_K)), "C01,C15: every other key is untouched by put");
     QV_ASSERT(W_has(t->root, false, 3) == (hasK || res), "C01: the key is present after a successful put");
-    QV_ASSERT(t->num == num0 + ((res && !hasK) ? 1 : 0) && W_cnt(t->root, 3) == cnt + ((res && !hasK) ? 1 : 0), "C01: size equals the number of distinct keys");
+    QV_ASSERT(t->num == num0 + ((res && !hasK) ? 1 : 0) && W_cnt(t->root, 3) == cnt + ((res && !hasK) ? 1 : 0), "C01,C15: size equals the number of distinct keys");
     QV_ASSERT(!qtreetbl_putobj(t, NULL, 1, val, 1) && !qtreetbl_putobj(t, name, 0, val, 1), "C01: NULL / empty key is refused");
     if (!res) QV_REACH("top: allocation failure");
     if (root0 != NULL && t->root != root0) QV_REACH("top: root replaced");
